@@ -584,8 +584,11 @@ def ob_process_segments():
         g = Z.grid_with_domains(name)
         doms = sorted(set(int(d) for d in g.domain_indices))
         subsets = [list(c) for r in range(len(doms) + 1) for c in itertools.combinations(doms + [99], r)][:12]
-        for sw in [None] + subsets:
-            for seg in [None] + subsets[:6]:
+        # the block contract abstracts the user-supplied lists to the set of their entries: also descending lists, lists with repeated entries, tuples and sets
+        variants = [list(reversed(c)) + [c[0]] for c in subsets if len(c) >= 2][:5]
+        variants += [tuple(reversed(variants[0])), set(variants[0])] if variants else []
+        for sw in [None] + subsets + variants:
+            for seg in [None] + subsets[:6] + variants:
                 support, nm = _process_segments(g, None, seg, sw)
                 for e in range(g.number_of_elements):
                     want_nm = -1 if (sw is not None and int(g.domain_indices[e]) in sw) else 1
@@ -594,6 +597,22 @@ def ob_process_segments():
                     if nm[e] != want_nm or bool(support[e]) != want_s:
                         return violated("_process_segments(%s, segments=%s, swapped=%s): element %d gets multiplier %d support %s" % (name, seg, sw, e, nm[e], support[e]),
                                         witness={"grid": name, "segments": seg, "swapped_normals": sw}, signature="process_segments", replay={"confirmed": True})
+        # support_elements (index array, any order, repeated entries): support[e] <=> e listed
+        rng = np.random.RandomState(5)
+        for size in (0, 1, 3, g.number_of_elements):
+            for _ in range(3):
+                se = rng.randint(0, g.number_of_elements, size=size)
+                support, nm = _process_segments(g, se, None, None)
+                n += g.number_of_elements
+                if [bool(x) for x in support] != [e in set(int(t) for t in se) for e in range(g.number_of_elements)] or any(int(m) != 1 for m in nm):
+                    return violated("_process_segments(%s, support_elements=%s): support %s" % (name, se.tolist(), [int(x) for x in support]),
+                                    witness={"grid": name, "support_elements": se.tolist()}, signature="process_segments/support_elements", replay={"confirmed": True})
+        try:
+            _process_segments(g, np.array([0]), [doms[0]], None)
+        except ValueError:
+            pass
+        else:
+            return violated("_process_segments accepts support_elements together with segments", signature="process_segments/both", replay={"confirmed": True})
     return held("%d element evaluations" % n)
 
 
@@ -624,7 +643,15 @@ def main():
         for p0 in PERMS:
             for p1_ in PERMS:
                 run.add("pipeline.singular-remap[pair share=%d %s/%s DP1xDP0]" % (share, p0, p1_), "post", PL.ob_pipeline, "pair:%d:%s:%s" % (share, p0, p1_), dp1, ("DP", 0, {}))
-    run.add("space._process_segments", "bounded", ob_process_segments)
+    # space._process_segments: deductive block contract (all grid sizes, all index patterns; lists abstracted to sets) + native link of the abstraction
+    from vlib import vrun as VR
+
+    VR.add_block(run, "contracts.dofmap_blocks", "_process_segments_block")
+    run.add("_process_segments_block::canary", "cover", VR.ob_block_canary, "contracts.dofmap_blocks", "_process_segments_block",
+            [("normal_multipliers[element_index] = -1", "normal_multipliers[element_index] = 1"), ("in segments", "not in segments"),
+             ("support[support_elements] = True", "support[support_elements] = False"), ("_np.full(number_of_elements, True", "_np.full(number_of_elements, False"),
+             ("in swapped_normals", "in segments")])
+    run.add("space._process_segments::native[lists in any order, with repetitions, tuples, sets; support_elements; both -> ValueError]", "bounded", ob_process_segments)
     for gname in ("screen2", "fringe") + (("screen3",) if thorough else ()):
         run.add("matrix.relabel.open-grid.P1[%s]" % gname, "bounded", ob_open_relabel, gname)
     for op in ("modified_hyp", "laplace_hyp") + (("helmholtz_hyp", "laplace_double") if thorough else ()):
